@@ -429,7 +429,10 @@ def main(chk):
     # tree searches prune with the same bound the other algorithms' stencils guarantee (rule shared with C01)
     c01.rule_octree(chk)
     c01.rule_level_stencil(chk)
+    c01.rule_subcell_radius(chk)
     c01.rule_cell_counts(chk)
+    # no particle sits on the outer face of the binning box (cell index = number of cells: found by some algorithms, folded into the next row by others)
+    c01.rule_bounds(chk)
     # the hash tables behind sh / esh / strat_hash keep and find every occupied cell (rule shared with C01)
     c01.rule_cxx_headers(chk)
     # every algorithm finds the same cells as the others: cell ids keep their width from binning to look-up, and a query decodes the source array with the source array's layout
